@@ -9,6 +9,8 @@ from mc.oracles import estimators as O
 from checks import _c19_tree as T
 from checks import _c19_relax as R
 from checks import _c19_comb as C
+from checks import _c19_life as L
+from checks import _c19_legacy as G
 
 PROP = "C19"
 LEVEL = "model_checking"
@@ -30,6 +32,19 @@ RULE = (
     "sequences), in the relaxation estimators (region-mapped grids, RELAX value + finite gradient, "
     "straight-through value) and in the relaxed-distribution grid (threshold probabilities over the one-hot "
     "support sum to one and equal softmax, masked classes have probability 0, factorisation, supports). "
+    "Object lifecycle: LogisticBernoulli, GumbelOneHotCategorical (probs= and logits=, batched and unbatched, "
+    "unnormalised, exact 0/1 and -inf entries, plain / requires_grad leaf / non-leaf parameter tensors, "
+    "validate_args None and False), SimpleRandomSamplingWithoutReplacement (int and tensor counts, given 0, padded), "
+    "every estimator class (direct, importance sampling incl. density is proposal and self_normalize, enumeration, "
+    "Metropolis-Hastings with burn_in 0 / initial_sample, straight-through, RELAX with REBAR eta 0.0 and smooth "
+    "control variates, is_log both) and the REBAR control-variate modules (current and deprecated) after copy.copy, "
+    "deepcopy, pickle, torch.save/load, used+copy, used+deepcopy, used+pickle (modules: also the framework's "
+    "state_dict / eval / double-float variants): everything observable under the same scripted draws (tlog_prob, "
+    "log_prob, clog_prob, rsample, csample, threshold, probs, logits, moments, expand, estimator values on 5 draw "
+    "scripts) must equal what an object freshly built from the ORIGINAL parameters gives. Secondary entry point: the "
+    "deprecated functional interface (to_z, to_b, to_fb, reinforce, relax, REBARControlVariate; all Bernoulli / "
+    "categorical / one-hot synonyms) on the same quadrature grids as the class-based estimators - see "
+    "checks/_c19_legacy.py for the clause-by-clause mapping. "
     "Functions / control variates that hand back the sample itself or a view of it (identity, no-op .to(), "
     "slice, squeeze) x control variate (none, table, linear, view) x is_log x validate_args on/off. Every "
     "func/cv callback is wrapped: tensors handed to it and produced by it must be bit-identical after the "
@@ -64,6 +79,15 @@ ASSUMPTIONS = [
     "variant is not combined with masked classes (sum(theta) would be -inf)",
     "Bernoulli-type logits at +-inf are NOT enumerated: torch.distributions.Bernoulli(logits=inf).log_prob(1.) is "
     "itself nan (binary_cross_entropy_with_logits), so no reference behaviour exists; probs= 0 and 1 are covered",
+    "lifecycle: an operation that torch itself refuses on a torch.distributions twin built from the same tensors "
+    "(copy.deepcopy of a tensor with a grad_fn) is skipped and counted (lifecycle_op_refused_by_torch); estimator "
+    "objects are copied over plain (no-grad) parameters with picklable callables; equality tolerance 1e-6 "
+    "(a legitimately rebuilt object may renormalise once more)",
+    "deprecated relax: value = diff + c(z) from components=True; the Bernoulli gradient mean (promised by its "
+    "docstring) uses midpoint grids K and 2K with one Richardson step; the categorical gradient mean of relax is "
+    "not judged (no exact quadrature of the pathwise terms; C19 promises value only for relaxations); to_b uses "
+    "z > 0 where LogisticBernoulli.threshold uses z >= 0 - the measure-zero tie z == 0 is not compared; no "
+    "attribute listed in a module's __constants__ is reassigned anywhere in C19",
     "view-returning functions are exercised on float samples only (Bernoulli, OneHotCategorical, SRSWOR); a "
     "Categorical sample is an integer tensor and cannot be the function value",
     "relaxation estimators: value only; midpoint product grids need the Bernoulli probability on a cell edge; the "
@@ -253,6 +277,83 @@ def configs(tier, seed):
                                                  "is_log": is_log, "dtype": "float32"}))
                         out.append((S ** N, {"fam": "tree", "est": "is", "share": "object", "prop": psv, "f": fview,
                                              "N": N, "is_log": is_log, "dtype": "float32"}))
+    # ---- object lifecycle: copy.copy / deepcopy / pickle / torch.save / used+copy of everything C19 drives ----
+    rng = T.rng_for(seed, "life")
+    for dtype in ("float32",) if tier == "quick" else ("float32", "float64"):
+        for mode in ("plain", "leaf_grad", "nonleaf"):
+            for validate in (None, False):
+                lb = {"probs": [[T.r3(rng, 0.05, 0.95), 0.0, 1.0], [0.5, T.r3(rng, 0.05, 0.95), T.r3(rng, 0.05, 0.95)]],
+                      "logits": [[T.r3(rng, -2, 2), 0.0, T.r3(rng, -2, 2)]]}
+                gb = {"probs": [[T.r3(rng, 0.1, 1), T.r3(rng, 0.1, 1), T.r3(rng, 0.1, 1)], [0.0, 0.4, 0.6]],
+                      "logits": [[T.r3(rng, -2, 2), T.r3(rng, -2, 2), T.r3(rng, -2, 2)], [0.0, None, -1.0]]}
+                for par in ("probs", "logits"):
+                    out.append((6, {"fam": "life_dist", "dist": "logistic", "par": par, "params": lb[par], "mode": mode,
+                                    "validate": validate, "dtype": dtype}))
+                    out.append((6, {"fam": "life_dist", "dist": "gumbel", "par": par, "params": gb[par], "mode": mode,
+                                    "validate": validate, "dtype": dtype}))
+                    # unnormalised probs / logits of a single (unbatched) distribution
+                    out.append((6, {"fam": "life_dist", "dist": "gumbel", "par": par,
+                                    "params": [2.0 * x for x in gb[par][0]], "mode": mode, "validate": validate,
+                                    "dtype": dtype}))
+    for validate in (None, False):
+        for params, outsz, tc in (([1, 3], None, False), ([0, 2], 4, False), ([[1, 2], [3, 3]], None, True), ([2, 2], 2, True)):
+            out.append((6, {"fam": "life_dist", "dist": "srswor", "params": params, "out": outsz, "tensor_counts": tc,
+                            "validate": validate, "dtype": "float32"}))
+    for is_log in (False, True):
+        tv = (lambda: T.r3(rng, 1.0, 3.0)) if is_log else (lambda: T.r3(rng, -2.0, 3.0))
+        bl = [T.r3(rng, -1.5, 1.5), T.r3(rng, -1.5, 1.5)]
+        bp = [T.r3(rng, 0.1, 0.9), T.r3(rng, 0.1, 0.9)]
+        cl = [T.r3(rng, -1.5, 1.5) for _ in range(3)]
+        cp = [T.r3(rng, 0.2, 1.0) for _ in range(3)]
+        f2, f3 = [tv(), tv()], [tv(), tv(), tv()]
+        ests = [
+            {"est": "direct", "prop": "bern", "par": "logits", "theta": bl, "f": f2, "N": 2,
+             "cv": [0.1, 0.4], "cv_mean": [0.2, 0.3] if is_log else [0.25, 0.3]},
+            {"est": "direct", "prop": "onehot", "par": "probs", "theta": cp, "f": f3, "N": 1},
+            {"est": "is", "prop": "bern", "par": "probs", "theta": bp, "theta2": [0.3, 0.6], "f": f2, "N": 2},
+            {"est": "is", "prop": "cat", "par": "logits", "theta": cl, "same": True, "f": f3, "N": 2, "self_normalize": True},
+            {"est": "enum", "prop": "cat", "par": "probs", "theta": cp, "f": f3},
+            {"est": "enum", "prop": "srswor", "theta": [1, 3], "f": None},
+            {"est": "imh", "prop": "bern", "par": "logits", "theta": bl, "f": f2, "N": 2, "burn_in": 0},
+            {"est": "imh", "prop": "bern", "par": "probs", "theta": bp, "f": f2, "N": 3, "burn_in": 1, "initial": [0.0, 1.0]},
+            {"est": "st", "prop": "logistic", "par": "probs", "theta": bp, "f": f2, "N": 2},
+            {"est": "st", "prop": "gumbel", "par": "logits", "theta": cl, "f": f3, "N": 2},
+            {"est": "st", "prop": "gumbel", "par": "probs", "theta": cp, "f": f3, "N": 1},
+            {"est": "relax", "prop": "logistic", "par": "logits", "theta": bl, "f": f2, "N": 2, "cvk": "rebar",
+             "lam": 0.5, "eta": 0.3},
+            {"est": "relax", "prop": "logistic", "par": "probs", "theta": bp, "f": f2, "N": 1, "cvk": "rebar",
+             "lam": 1.0, "eta": 0.0},
+            {"est": "relax", "prop": "gumbel", "par": "logits", "theta": cl, "f": f3, "N": 2, "cvk": "rebar",
+             "lam": 0.7, "eta": 0.3},
+            {"est": "relax", "prop": "gumbel", "par": "probs", "theta": cp, "f": f3, "N": 1, "cvk": "smooth"},
+        ]
+        for e in ests:
+            out.append((8, dict(e, fam="life_est", is_log=is_log, dtype="float32")))
+    for cls, ld in (("logistic", None), ("gumbel", None), ("legacy", "bern"), ("legacy", "onehot")):
+        for eta in (0.0, 0.7):
+            out.append((5, {"fam": "life_cv", "cls": cls, "legacy_dist": ld, "lam": 0.5, "eta": eta,
+                            "f": [0.5, 2.0, -1.0] if cls != "logistic" and ld != "bern" else [0.5, 2.0]}))
+    # ---- secondary entry point: the deprecated functional interface, on the same quadrature grids ----------
+    rng = T.rng_for(seed, "legacy")
+    for syn in ("bern", "Bernoulli") if tier == "quick" else ("bern", "Bern", "bernoulli", "Bernoulli"):
+        for K, js in ((4, (1, 2, 3)), (10, (1, 7))):
+            for j in js:
+                out.append((3, {"fam": "legacy_bern", "dist": syn, "K": K, "j": j, "f": [T.r3(rng, -2, 3), T.r3(rng, -2, 3)],
+                                "cv": {"kind": "ulinear", "a": T.r3(rng, -2, 2), "d": T.r3(rng, -1, 1)}, "dtype": "float64"}))
+        for lam in (0.5, 1.0):
+            out.append((40, {"fam": "legacy_bern", "dist": syn, "K": 100, "j": rng.randrange(5, 96),
+                             "f": [T.r3(rng, -2, 3), T.r3(rng, -2, 3)],
+                             "cv": {"kind": "rebar", "lam": lam, "eta": T.r3(rng, 0.3, 1.2)}, "dtype": "float64"}))
+        out.append((1, {"fam": "legacy_reinforce", "dist": syn, "logits": [T.r3(rng, -2, 2) for _ in range(3)],
+                        "f": [T.r3(rng, -2, 3), T.r3(rng, -2, 3)]}))
+    for syn in ("cat", "onehot") if tier == "quick" else ("cat", "Cat", "categorical", "Categorical", "onehot", "OneHotCategorical"):
+        for V, K in ((2, 6), (3, 4)):
+            pv = [T.r3(rng, 0.1, 1.0) for _ in range(V)]
+            pv = [x / sum(pv) for x in pv]
+            for cv in ({"kind": "rebar", "lam": T.r3(rng, 0.3, 1.0), "eta": T.r3(rng, 0.3, 1.2)},
+                       {"kind": "tanh", "a": [T.r3(rng, -2, 2) for _ in range(V)], "d": T.r3(rng, -1, 1)}):
+                out.append((3, {"fam": "legacy_cat", "dist": syn, "p": pv, "K": K, "shift": T.r3(rng, -1, 1),
+                                "f": [T.r3(rng, -2, 3) for _ in range(V)], "cv": cv, "dtype": "float64"}))
     # ---- Metropolis-Hastings -----------------------------------------------------------------
     imh_props = [(p, "quick" if tier == "quick" else "full") for p in props
                  if (p["kind"], len(p.get("theta", []))) in (("bern_joint", 1), ("bern_joint", 2), ("cat", 3), ("onehot", 2))
@@ -438,6 +539,12 @@ def _assign(tier, seed):
 RUNNERS = {
     "tree": T.run_tree,
     "seq": T.run_seq,
+    "life_dist": L.run_life_dist,
+    "life_est": L.run_life_est,
+    "life_cv": L.run_life_cv,
+    "legacy_bern": G.run_legacy_bern,
+    "legacy_cat": G.run_legacy_cat,
+    "legacy_reinforce": G.run_legacy_reinforce_bern,
     "imh": T.run_imh,
     "relax_grid": R.run_relax_grid,
     "relax_region": R.run_relax_region,
